@@ -377,6 +377,12 @@ def run(ctx, prog, only=None):
         for c in ck:
             if not p.took(c.ret, 'false'):
                 return 'document accepted although a service id equals a method id'
+        # identifiers are recorded / looked up as whole DID URLs: a part of one (its relative URL, its fragment) conflates entries of
+        # different DIDs that share it
+        for c in ins + ck:
+            part = apps(c.args[1] if len(c.args) > 1 else c.args[0], r'DIDUrl::(url|fragment|path|query|did)$|::as_str$|::to_string$|::fragment$')
+            if part:
+                return 'identifier map keyed by %s of the id, not by the whole id' % part[0][1].split('::')[-1]
         # every id the loops take out of the document is either recorded in the identifier map or checked against it
         for nx in [c for c in p.calls if re.search(r'Iterator>::next$', c.name) and p.took(c, 'Some')]:
             item = ('field', nx.ret, 0, 'Some')
@@ -393,6 +399,14 @@ def main(ctx):
     prog, info = load(CRATES, src_only=SRC)
     ctx.extra['mir'] = info
     ctx.bounds.append('one step of each mutator / resolver from an arbitrary document (sets are opaque; their operations are callees)')
-    ctx.outside += ['JSON round trip after each step (serde)', 'OrderedSet operations themselves (C19)', 'usize overflow of the sum of the six set lengths in check_id_constraints (opaque lengths)', 'ids differing only in path/query (alias under DIDUrlQuery::matches)',
+    ctx.outside += ['JSON round trip after each step (serde)', 'OrderedSet operations themselves (C19; the order-preserving removal obligation is re-used)', 'usize overflow of the sum of the six set lengths in check_id_constraints (opaque lengths)', 'ids differing only in path/query (alias under DIDUrlQuery::matches)',
                     'histories are covered only as one inductive step per operation; the invariant itself (check_id_constraints over whole documents) is bounded to 2 entries per loop']
     guarded(ctx, 'document operations audit', 'M', lambda: run(ctx, prog))
+    # resolution by fragment returns the *first* match: removal from the ordered collections keeps the order of what remains (C19's
+    # obligation on OrderedSet::remove / change, re-used)
+    import c19
+
+    def order_of_removal():
+        prog2, info2 = load(c19.CRATES)
+        c19.serde_and_change(ctx, prog2, only=r'^OrderedSet::remove/|^OrderedSet::change/')
+    guarded(ctx, 'order-preserving removal (shared with C19)', 'M', order_of_removal)
